@@ -2120,6 +2120,11 @@ class Decoder(object):
             except error.EndOfStreamError:
                 tail = null
 
+            if isinstance(tail, SubstrateUnderrunError):
+                # a non-blocking stream with nothing more to give at the
+                # moment: no octets follow, not an error object
+                tail = null
+
             return asn1Object, tail
 
 
